@@ -117,7 +117,12 @@ func (c *Ctx) mk(t *Term) *Term {
 	}
 	switch t.Op {
 	case OMul, OUDiv, OURem, OSDiv, OSRem:
+		// NL marks queries that go to the integer-arithmetic back end first:
+		// symbolic x symbolic products/quotients, and division or
+		// multiplication by a constant that is not a power of two
 		if !t.Args[0].IsConst() && !t.Args[1].IsConst() {
+			t.NL = true
+		} else if k := t.Args[1]; k.IsConst() && k.Val&(k.Val-1) != 0 && t.W > 8 {
 			t.NL = true
 		}
 	}
@@ -383,6 +388,9 @@ func (c *Ctx) bin(op Op, a, b *Term) *Term {
 		if a == b {
 			return c.Const(0, w)
 		}
+		if a.IsConst() && a.Val == 0 {
+			return c.Neg(b)
+		}
 		if b.IsConst() {
 			return c.bin(OAdd, a, c.Const(-b.Val, w))
 		}
@@ -401,6 +409,13 @@ func (c *Ctx) bin(op Op, a, b *Term) *Term {
 	case OUDiv, OSDiv:
 		if b.IsConst() && b.Val == 1 {
 			return a
+		}
+		// (x*k)/k == x whenever x*k does not wrap: state it as an ite so the
+		// solver need not reason about the divider circuit in that case
+		if op == OUDiv && b.IsConst() && b.Val > 1 && a.Op == OMul && a.Args[1] == b {
+			x := a.Args[0]
+			plain := c.mk(&Term{Op: op, W: w, Args: []*Term{a, b}})
+			return c.Ite(c.Ule(x, c.Const(m/b.Val, w)), x, plain)
 		}
 	case OBAnd:
 		if a.IsConst() && !b.IsConst() {
@@ -499,6 +514,9 @@ func (c *Ctx) Neg(a *Term) *Term {
 	if a.IsConst() {
 		return c.Const(-a.Val, a.W)
 	}
+	if a.Op == ONeg {
+		return a.Args[0]
+	}
 	return c.mk(&Term{Op: ONeg, W: a.W, Args: []*Term{a}})
 }
 
@@ -589,6 +607,12 @@ func (c *Ctx) Zext(a *Term, w int) *Term {
 	}
 	if a.Op == OZext {
 		return c.Zext(a.Args[0], w)
+	}
+	// zext(x*k) == zext(x)*k whenever the narrow product does not wrap
+	if a.Op == OMul && a.Args[1].IsConst() && a.Args[1].Val > 1 && !a.Args[0].IsConst() {
+		x, k := a.Args[0], a.Args[1].Val
+		plain := c.mk(&Term{Op: OZext, W: w, Val: uint64(w), Args: []*Term{a}})
+		return c.Ite(c.Ule(x, c.Const(mask(a.W)/k, a.W)), c.Mul(c.Zext(x, w), c.Const(k, w)), plain)
 	}
 	return c.mk(&Term{Op: OZext, W: w, Val: uint64(w), Args: []*Term{a}})
 }
